@@ -1,7 +1,7 @@
 (* C03 — what the GENERATED scripts (coq/gen/Lua_period.v, Lua_token.v) compute, proved
    against whatever periodscript.lua / tokenscript.lua say in the tree today. *)
-From Coq Require Import List ZArith String QArith Bool Lia.
-From GZ Require Import Lib.RedisStore Lib.RedisStoreFacts.
+From Coq Require Import List ZArith String QArith Bool Lia ZifyBool.
+From GZ Require Import Lib.RedisStore Lib.RedisStoreFacts Lib.LuaExec.
 From GZgen Require Lua_period Lua_token C03Consts.
 Import ListNotations.
 Open Scope Z_scope.
@@ -15,6 +15,14 @@ Proof. reflexivity. Qed.
 Lemma ping_interval_today : C03Consts.gen_pingInterval_ns = 100000000.
 Proof. reflexivity. Qed.
 
+(* The two script lemmas below are proved by SYMBOLIC EXECUTION of whatever the generated scripts are today
+   (Lib/LuaExec.v: lua_exec runs the script on a symbolic store, splitting on every test it makes;
+   lua_finish compares each path with the specification by linear arithmetic).  Nothing in the proofs
+   depends on the text of the scripts: renamed locals, expressions split into locals or joined, operands
+   exchanged, tonumber moved, early returns, `x or default`, math.max instead of an if ... are re-proved
+   as they are (translate/neutral/*.lua is the regression corpus, `python3 translate/neutraltest.py`);
+   a script that computes something else leaves an unprovable path = a broken obligation. *)
+
 (* the integer the period script returns for the [c]-th request against [q] *)
 Definition period_code (c q : Z) : Z := if c <? q then 1 else if c =? q then 2 else 0.
 
@@ -22,6 +30,26 @@ Definition period_code (c q : Z) : Z := if c <? q then 1 else if c =? q then 2 e
 Definition after_expire (k : bulk) (p : Z) (st : rstate) : rstate := snd (exec EXPIRE [k; BInt p] st).
 
 (* periodscript.lua: INCRBY 1; EXPIRE when the counter was just created; compare with limit *)
+Definition period_script_meets (script : list lval -> list lval -> M lval) : Prop :=
+  forall st key q p,
+  eval script [key] [BInt q; BInt p] st =
+  match lookup st key with
+  | Some (mkEntry (BStr _) _) => (RErr ENotInt, st)
+  | Some (mkEntry (BInt v) ex) =>
+    let st1 := store_put st key (mkEntry (BInt (v + 1)) ex) in
+    (RInt (period_code (v + 1) q),
+     if v + 1 =? 1 then after_expire key p st1 else st1)
+  | None =>
+    let st1 := store_put st key (mkEntry (BInt 1) None) in
+    (RInt (period_code 1 q), after_expire key p st1)
+  end.
+
+Ltac period_script_tac :=
+  intros st key q p; unfold period_code, after_expire; lua_exec; lua_finish.
+
+Lemma period_script_today : period_script_meets Lua_period.script.
+Proof. period_script_tac. Qed.
+
 Lemma period_script_spec st key q p :
   eval Lua_period.script [key] [BInt q; BInt p] st =
   match lookup st key with
@@ -34,31 +62,29 @@ Lemma period_script_spec st key q p :
     let st1 := store_put st key (mkEntry (BInt 1) None) in
     (RInt (period_code 1 q), after_expire key p st1)
   end.
-Proof.
-  unfold eval, Lua_period.script. index_simp. cbn [lua_tonumber].
-  unfold bind at 1. rewrite redis_call_kz. cbn [exec].
-  destruct (lookup st key) as [[[v|s] ex]|] eqn:L; cbn [fst snd]; [| reflexivity |].
-  - set (st1 := store_put st key (mkEntry (BInt (v + 1)) ex)).
-    destruct (exec_expire_ok key p st1) as [x Hx].
-    rewrite lua_eq_z. unfold bind; cbv beta. unfold period_code.
-    destruct (v + 1 =? 1); cbn [truthy].
-    + rewrite redis_call_kz. unfold after_expire. destruct (exec EXPIRE [key; BInt p] st1) as [r st2].
-      cbn [fst] in Hx. subst r. unfold ret; cbn [snd]. rewrite lua_lt_z, lua_eq_z.
-      destruct (v + 1 <? q); destruct (v + 1 =? q); reflexivity.
-    + unfold ret. rewrite lua_lt_z, lua_eq_z.
-      destruct (v + 1 <? q); destruct (v + 1 =? q); reflexivity.
-  - set (st1 := store_put st key (mkEntry (BInt 1) None)).
-    destruct (exec_expire_ok key p st1) as [x Hx].
-    rewrite lua_eq_z. change (1 =? 1) with true. unfold bind; cbv beta. unfold period_code. cbn [truthy].
-    rewrite redis_call_kz. unfold after_expire. destruct (exec EXPIRE [key; BInt p] st1) as [r st2].
-    cbn [fst] in Hx. subst r. unfold ret; cbn [snd]. rewrite lua_lt_z, lua_eq_z.
-    destruct (1 <? q); destruct (1 =? q); reflexivity.
-Qed.
+Proof. exact (period_script_today st key q p). Qed.
 
 (* ------------------------------------------------------------------ tokenscript.lua *)
 Definition token_ttl (rt bs : Z) : Z := Z.max 1 (bs * 2 / rt).
 
-Ltac mstep L := rewrite L; rewrite bind_ret_l; cbv beta.
+Definition token_script_meets (script : list lval -> list lval -> M lval) : Prop :=
+  forall st kt kts rt bs now n, 0 < rt ->
+  eval script [kt; kts] [BInt rt; BInt bs; BInt now; BInt n] st =
+  let ttl := token_ttl rt bs in
+  let T := match stored_num st kt with Some z => z | None => bs end in
+  let s := match stored_num st kts with Some z => z | None => 0 end in
+  let filled := Z.min bs (T + Z.max 0 (now - s) * rt) in
+  let ok := n <=? filled in
+  let T' := if ok then filled - n else filled in
+  let ex := Some (rnow st + ttl * 1000) in
+  ((if ok then RInt 1 else RNil),
+   store_put (store_put st kt (mkEntry (BInt T') ex)) kts (mkEntry (BInt now) ex)).
+
+Ltac token_script_tac :=
+  intros st kt kts rt bs now n Hrt; unfold token_ttl; lua_exec; lua_finish.
+
+Lemma token_script_today : token_script_meets Lua_token.script.
+Proof. token_script_tac. Qed.
 
 Lemma token_script_spec st kt kts rt bs now n : 0 < rt ->
   eval Lua_token.script [kt; kts] [BInt rt; BInt bs; BInt now; BInt n] st =
@@ -71,28 +97,4 @@ Lemma token_script_spec st kt kts rt bs now n : 0 < rt ->
   let ex := Some (rnow st + ttl * 1000) in
   ((if ok then RInt 1 else RNil),
    store_put (store_put st kt (mkEntry (BInt T') ex)) kts (mkEntry (BInt now) ex)).
-Proof.
-  intro Hrt. unfold eval, Lua_token.script. index_simp. cbn [lua_tonumber]. cbv zeta.
-  mstep (lua_div_M bs rt Hrt). mstep lua_mul_qM. mstep lua_floor_M. rewrite (Qfloor_div2 _ _ Hrt).
-  rewrite lua_lt_M, bind_ret_l.
-  assert (TTL : (if truthy (LBool (bs * 2 / rt <? 1)) then ret (znum 1) else ret (znum (bs * 2 / rt)))
-                = @ret lval (znum (token_ttl rt bs))).
-  { unfold token_ttl. destruct (bs * 2 / rt <? 1) eqn:E; cbn [truthy]; apply ret_eq, znum_eq.
-    - apply Z.ltb_lt in E. lia.
-    - apply Z.ltb_ge in E. lia. }
-  rewrite TTL, bind_ret_l. clear TTL.
-  assert (DEF : forall (o : option Z) d,
-            (if truthy (lua_eq (match o with Some z => znum z | None => LNil end) LNil)
-             then ret (znum d) else ret (match o with Some z => znum z | None => LNil end))
-            = @ret lval (znum (match o with Some z => z | None => d end))).
-  { intros [z|] d; reflexivity. }
-  rewrite bind_get, tonumber_get_val, DEF, bind_ret_l.
-  rewrite bind_get, tonumber_get_val, DEF, bind_ret_l. clear DEF.
-  set (T := match stored_num st kt with Some z => z | None => bs end).
-  set (s := match stored_num st kts with Some z => z | None => 0 end).
-  repeat marith.
-  set (filled := Z.min bs (T + Z.max 0 (now - s) * rt)).
-  assert (TT : (token_ttl rt bs <=? 0) = false) by (unfold token_ttl; apply Z.leb_gt; lia).
-  destruct (n <=? filled) eqn:G; cbn [truthy]; rewrite ?lua_sub_M, ?bind_ret_l; cbv beta;
-    rewrite bind_setex, TT, bind_setex; cbn [rnow store_put]; rewrite TT; reflexivity.
-Qed.
+Proof. exact (token_script_today st kt kts rt bs now n). Qed.
